@@ -330,8 +330,12 @@ func TestC17Registry(t *testing.T) {
 		removed, built := false, false
 		steps = nil
 		var f *Failure
+		var doAddReg func(reg kit.Reg, viaModule bool)
 		doAdd := func(viaModule bool) {
 			reg := kit.GenLooseReg(rt, nextID, true)
+			doAddReg(reg, viaModule)
+		}
+		doAddReg = func(reg kit.Reg, viaModule bool) {
 			nextID++
 			w.Cfg.Regs = append(w.Cfg.Regs, reg)
 			rp := &w.Cfg.Regs[len(w.Cfg.Regs)-1]
@@ -377,8 +381,53 @@ func TestC17Registry(t *testing.T) {
 				nt = true
 			}
 		}
+		// replace: the documented way of swapping one service of a package for another - remove
+		// one identity of a registration that provides several, register a plain replacement
+		doReplace := func() {
+			var cands []refDesc
+			for _, d := range ref.descs {
+				reg := ref.regs[d.Reg]
+				if d.Void || d.Ident.Group != "" || reg == nil || len(reg.AllProvides()) < 2 {
+					continue
+				}
+				if d.Ident.Key == "" {
+					ambiguous := false
+					for _, o := range ref.descs {
+						if !o.Void && o.Ident.T == d.Ident.T && (o.Ident.Key != "" || o.Ident.Group != "") {
+							ambiguous = true
+						}
+					}
+					if ambiguous {
+						continue
+					}
+				}
+				cands = append(cands, d)
+			}
+			if len(cands) == 0 {
+				return
+			}
+			d := rapid.SampledFrom(cands).Draw(rt, "replaced")
+			if d.Ident.Key != "" {
+				coll.RemoveKeyed(kit.RType(d.Ident.T), d.Ident.Key)
+			} else {
+				coll.Remove(kit.RType(d.Ident.T))
+			}
+			ref.remove(d.Ident)
+			removed = true
+			steps = append(steps, fmt.Sprintf("remove(%s) [to be replaced]", d.Ident))
+			impl := d.Ident.T
+			if kit.IsIface(impl) {
+				impl = rapid.SampledFrom([]int{0, kit.NumD}).Draw(rt, "replImpl")
+			}
+			doAddReg(kit.Reg{ID: nextID, Life: rapid.IntRange(0, 2).Draw(rt, "replLife"), Form: kit.FormPlain,
+				Outs: []kit.OutSpec{{T: d.Ident.T, Impl: impl}}, Name: d.Ident.Key, HasErr: rapid.Bool().Draw(rt, "replErr")}, false)
+		}
 		nsteps := rapid.IntRange(1, maxSteps).Draw(rt, "nsteps")
 		for i := 0; i < nsteps && f == nil; i++ {
+			if rapid.IntRange(0, 9).Draw(rt, "replace") == 0 {
+				doReplace()
+				continue
+			}
 			switch k := rapid.IntRange(0, 11).Draw(rt, "op"); {
 			case k <= 5:
 				doAdd(false)
